@@ -197,4 +197,85 @@ PROPS['C10'] = {
     'level_note': 'sizes <= 40; sampled containers and block kinds',
 }
 
+PROPS['C11'] = {
+    'modes': [(0, 8, 'diag'), (1, 8, 'diag')],
+    'budget': {'quick': 50, 'thorough': 360},
+    'deciding': {'C11.mv': (500, 5000), 'C11.construct': (1000, 10000), 'C11.as_matrix': (100, 1000), 'C11.reject': (20, 100)},
+    'require_hist': {'quick': {'C11.construct': ['BroadcastDiagonalOperator:accepted', 'BroadcastDiagonalOperator:refused',
+                                                 'DiagonalOperator:accepted', 'DiagonalOperator:refused']},
+                     'thorough': {}},
+    'rule': 'cases = 1-3 leaves of rank 1-4 (sharing leading or trailing dimensions, or unrelated), value arrays of rank 1-3 with '
+            'matching, unit or wrong dimensions, axis_destination as non-negative / negative scalar, explicit tuples and lists in any '
+            'order, mixed signs, axes beyond the leaf rank on the left and right, duplicated axes; an independent NumPy reference '
+            '(expand_dims + transpose + broadcasting) decides whether the specification is legal and what it computes: construction '
+            'must succeed exactly when the reference applies (and, for the strict variant, leaves every shape unchanged), every mv '
+            'observed equals the reference, as_matrix = diag(broadcast values), the inverse uses reciprocal-or-zero values. case key '
+            '= (axis form, value rank, leaf ranks, alignment, reference outcome); non-trivial = all',
+    'assumptions': COMMON_ASSUMPTIONS,
+    'technique': 'runtime reference-model monitor on (Broadcast)DiagonalOperator.mv; constructor acceptance oracle from an independent NumPy model',
+    'level_text': 'exploration: thousands of (leaf shapes, value shapes, axis specification) configurations, legality and values decided by an independent NumPy model.',
+    'level_note': 'dimensions 1..3, ranks <= 4',
+}
+
+PROPS['C13'] = {
+    'modes': [(0, 8, 'axes'), (1, 8, 'axes')],
+    'budget': {'quick': 20, 'thorough': 130},
+    'deciding': {'C13.mv': (1500, 15000), 'C13.construct': (1500, 15000), 'C13.roundtrip': (800, 8000), 'C13.permutation': (500, 5000)},
+    'require_hist': {'quick': {'C13.mv.class': ['MoveAxisOperator', 'RavelOperator', 'ReshapeOperator', 'ReshapeTransposeOperator'],
+                               'C13.construct': ['ravel:accepted', 'ravel:refused', 'reshape:accepted', 'reshape:refused']},
+                     'thorough': {'C13.mv.class': ['MoveAxisOperator', 'RavelOperator', 'ReshapeOperator', 'ReshapeTransposeOperator']}},
+    'rule': 'cases = move-axis (int / tuple / list arguments, positive, negative and mixed axes, 1-4 axes, 1-3 leaves of rank 1-4, every '
+            'argument numpy.moveaxis accepts for every leaf), ravel (first/last in every sign combination, legal and illegal), reshape '
+            '(explicit shapes, -1 at any position, wrong sizes, two -1, sizes below -1); every mv observed equals numpy.moveaxis / the '
+            'flattening of the axes between first and last / numpy.reshape (exact, integer-valued data); A.T(A(x)) = x; the dense form is '
+            'a permutation matrix equal to as_matrix; reduce() gives the identity only when no leaf shape changes and the map is the '
+            'identity; construction succeeds exactly when the NumPy reference applies to every leaf. case key = (class, argument form, '
+            'signs, legality, leaf ranks); non-trivial = some leaf shape changes',
+    'assumptions': COMMON_ASSUMPTIONS + ['move-axis arguments that NumPy itself rejects (repeated or out-of-range axes) are not legal arguments and are not generated'],
+    'technique': 'runtime reference-model monitor on MoveAxis/Ravel/Reshape/ReshapeTranspose mv (NumPy), constructor legality oracle, permutation-matrix oracle',
+    'level_text': 'exploration: thousands of axis specifications x leaf shapes, exact comparison with NumPy.',
+    'level_note': 'ranks <= 4, dimensions 1..4',
+}
+
+PROPS['C14'] = {
+    'modes': [(0, 2, 'ij'), (0, 14, 'ijk')],
+    'modes_thorough': [(0, 1, 'ij'), (0, 13, 'ijk'), (0, 2, 'h')],
+    'budget': {'quick': 90, 'thorough': 900},
+    'deciding': {'C14.mv': (1500, 15000), 'C14.transpose': (1500, 15000), 'C14.construct': (1500, 15000)},
+    'require_hist': {'quick': {'C14.transpose': ['accepted', 'rejected']}, 'thorough': {'C14.transpose': ['accepted', 'rejected']}},
+    'exhaustive': {'quick': False, 'thorough': True},
+    'no_time_cap': ['ij', 'ijk'],
+    'rule': 'cases = ALL explicit two-operand einsum strings over {i,j,k}: left operand 2-3 distinct letters, right operand and result 1-2 '
+            'letters, every letter order, an ellipsis absent or at every position of each term (58 806 strings; quick = the {i,j} '
+            'sub-alphabet exhaustively + a seeded 10 % sample of the rest; thorough = all, plus every 7th string of the 4-letter forms with '
+            'h in the block term), shared and per-leaf block arrays, integer-valued data; strings numpy.einsum rejects are not operators '
+            'and are skipped; for the others mv must equal numpy.einsum and .T must either raise ValueError or be the exact adjoint, and '
+            'must be accepted whenever the independent predicate (one contracted letter, one free block letter, result with the free '
+            'letter replaced = right operand) holds. case key = subscript string; non-trivial = transpose accepted',
+    'assumptions': COMMON_ASSUMPTIONS + ['letter sizes i=2, j=3, k=4, h=2, ellipsis dimensions (2,)'],
+    'technique': 'runtime reference-model monitor (numpy.einsum) and adjoint oracle over an exhaustively enumerated subscript space',
+    'level_text': 'exploration, exhaustive within bounds in the thorough tier: every subscript string of the enumerated space is executed; accepted transposes are exact adjoints on all basis vectors.',
+    'level_note': 'alphabet {i,j,k} (+h sampled); one block/leaf shape per string',
+}
+
+PROPS['C15'] = {
+    'modes': [(0, 8, 'pol'), (1, 8, 'pol')],
+    'budget': {'quick': 50, 'thorough': 360},
+    'deciding': {'C15.mv': (1500, 15000), 'C15.identity': (600, 6000), 'C15.factory': (300, 3000), 'C15.chain': (300, 3000)},
+    'require_hist': {'quick': {'C15.mv.class': ['HWPOperator', 'QURotationOperator', 'QURotationTransposeOperator', 'LinearPolarizerOperator'],
+                               'C15.factory': ['qurot', 'hwp', 'hwp-none', 'pol', 'pol-none']},
+                     'thorough': {'C15.mv.class': ['HWPOperator', 'QURotationOperator', 'QURotationTransposeOperator', 'LinearPolarizerOperator']}},
+    'rule': 'cases = 4 Stokes kinds x shapes (3,), (1,), (2,3), (2,2) x angle arrays of shape (), full, last axis, all-ones, column, row '
+            '(broadcastable to the Stokes shape) with generic angles in (-pi, pi), special values (0, +-pi/4, +-pi/2, +-pi) and large '
+            'magnitudes (|a| <= 50), float32 and float64; every mv observed is compared with explicit NumPy Mueller models (HWP = '
+            'diag(1,1,-1,-1), R(a) rotating (Q,U) by 2a, R.T by -2a, polariser (I+Q)/2) restricted to the kind; the identities '
+            'R(a)R(b)=R(a+b), R(a)HWP=HWP R(-a), pol HWP=pol and the products R.T R, pol R HWP, HWP R HWP are compared with the Mueller '
+            'products before and after reduce(); factory methods with and without angles likewise; random chains with scalars and '
+            'diagonal operators likewise. case key = (Stokes kind, rank, angle forms); non-trivial = angle not a multiple of pi/4',
+    'assumptions': COMMON_ASSUMPTIONS + ['trigonometric tolerance 3e-4 (float32) / 1e-9 (float64), x40 for |a| up to 50'],
+    'technique': 'runtime reference-model monitor on the polarimetry mv methods (explicit Mueller matrices) and dense product oracles around reduce()',
+    'level_text': 'exploration: thousands of (Stokes kind, shape, angle array) configurations and chains against explicit Mueller matrices.',
+    'level_note': 'angles sampled; sizes small',
+}
+
 NOT_APPLICABLE: dict[str, str] = {}
